@@ -86,7 +86,7 @@ def _entries():
         "pysmt.simplifier.Simplifier": ("simplify", None),
         "pysmt.substituter.MGSubstituter": ("substitute", "subs"),
         "pysmt.substituter.MSSubstituter": ("substitute", "subs"),
-        "pysmt.oracles.SizeOracle": ("get_size", None),
+        "pysmt.oracles.SizeOracle": ("get_size", "measure"),
         "pysmt.oracles.QuantifierOracle": ("is_qf", None),
         "pysmt.oracles.TheoryOracle": ("get_theory", None),
         "pysmt.oracles.FreeVarsOracle": ("get_free_variables", None),
@@ -102,7 +102,11 @@ def _entries():
     }
 
 
-def _mk_args(w, f, mode, variant=0):
+def _mk_args(w, f, mode, variant=0, wk=None):
+    if mode == "measure":
+        if variant == 0 or wk is None:
+            return [f]
+        return [f, w.it.getattr(wk, "MEASURE_DAG_NODES")]
     if mode == "subs":
         src = w.symbol("a", ("BOOL",))
         dst = w.symbol("c" if variant == 0 else "b", ("BOOL",))
@@ -158,17 +162,27 @@ def _walk_job(job):
         r1 = it.call(it.getattr(wk, meth), _mk_args(w, f, mode))
         n1 = len(w.calls)
         r2 = it.call(it.getattr(wk, meth), _mk_args(w, f, mode))
-        return (wk, r1, n1, r2)
+        n2 = len(w.calls)
+        stale = None
+        if mode is not None:
+            r3 = it.call(it.getattr(wk, meth), _mk_args(w, f, mode, 1, wk))
+            ref = fresh(w, "B")
+            rb = it.call(it.getattr(ref, meth), _mk_args(w, f, mode, 1, ref))
+            if _value_sig(w, r3) != _value_sig(w, rb):
+                stale = (proc.sc.node_str(w, r3) if w.is_node(r3) else repr(r3)[:80],
+                         proc.sc.node_str(w, rb) if w.is_node(rb) else repr(rb)[:80])
+        del w.calls[n2:]
+        return (wk, r1, n1, r2, stale)
 
     def post_clean(w, f, val, facts):
-        wk, r1, n1, r2 = val
+        wk, r1, n1, r2, stale = val
         calls = w.calls[:n1]
         seen = {}
         for (t, name, node, sig) in calls:
             seen.setdefault((id(node), sig), []).append((name, node))
         dup = [(v[0][0], proc.sc.node_str(w, v[0][1]), len(v)) for v in seen.values() if len(v) > 1]
         res = {"n": n1, "dup": dup, "second": len(w.calls) - n1, "one_shot": bool(wk.attrs.get("invalidate_memoization")),
-               "same": _value_sig(w, r1) == _value_sig(w, r2)}
+               "same": _value_sig(w, r1) == _value_sig(w, r2), "stale": stale}
         return proc.ProcResult(shape, "valid", res)
     res = proc.run_proc(shape, call_clean, post=post_clean, world_cls=ProbeWorld, max_paths=8)
     clean = [r for r in res if r.kind == "valid"]
@@ -182,6 +196,7 @@ def _walk_job(job):
     out["second_calls"] = info["second"]
     out["one_shot"] = info["one_shot"]
     out["second_same"] = info["same"]
+    out["stale"] = info["stale"]
     n = info["n"]
 
     # 2. failure injection at every handler call k = 1..n, then two follow-up walks compared with a fresh walker
@@ -200,13 +215,13 @@ def _walk_job(job):
                 failed = True
             w.fail_at = None
             mark = len(w.calls)
-            ra1 = it.call(it.getattr(wk, meth), _mk_args(w, g, mode, 1))
-            ra2 = it.call(it.getattr(wk, meth), _mk_args(w, f, mode, 1))
+            ra1 = it.call(it.getattr(wk, meth), _mk_args(w, g, mode, 1, wk))
+            ra2 = it.call(it.getattr(wk, meth), _mk_args(w, f, mode, 1, wk))
             ca = _calls_sig(w, w.calls[mark:], "A")
             ref = fresh(w, "B")
             mark = len(w.calls)
-            rb1 = it.call(it.getattr(ref, meth), _mk_args(w, g, mode, 1))
-            rb2 = it.call(it.getattr(ref, meth), _mk_args(w, f, mode, 1))
+            rb1 = it.call(it.getattr(ref, meth), _mk_args(w, g, mode, 1, ref))
+            rb2 = it.call(it.getattr(ref, meth), _mk_args(w, f, mode, 1, ref))
             cb = _calls_sig(w, w.calls[mark:], "B")
             return (failed, ca, cb, _value_sig(w, ra1) == _value_sig(w, rb1), _value_sig(w, ra2) == _value_sig(w, rb2),
                     [proc.sc.node_str(w, x) if w.is_node(x) else repr(x)[:60] for x in (ra1, rb1, ra2, rb2)])
@@ -299,27 +314,30 @@ def discover(repo):
     return known, others
 
 
-def jobs(repo, tier="quick"):
+def jobs(repo, tier="quick", classes=None):
     known, others = discover(repo)
+    if classes is not None:
+        known = [q for q in known if q in classes]
     shapes = _shared_shapes()
     out = []
     for q in known:
-        # arithmetic shape only for walkers that accept arithmetic
         use = shapes if tier == "thorough" else shapes[:3]
         for i, sh in enumerate(use):
             second = shapes[(i + 1) % len(shapes)].t
             out.append((q, sh.t, second))
-    return out, others
+    return out, others, known
 
 
 _CACHE = {}
 
 
-def results(repo, tier="quick"):
-    key = (repo.root, tier)
+def results(repo, tier="quick", classes=None, towers=True):
+    key = (repo.root, tier, tuple(classes) if classes else None, towers)
     if key not in _CACHE:
-        js, others = jobs(repo, tier)
-        known, _ = discover(repo)
-        _CACHE[key] = (parallel_map(_walk_job, js), others, parallel_map(_tower_job, [(q, fam) for q in known for fam in ("bool", "arith")
-                                                                        if not (fam == "arith" and q in ARITH_SKIP)]))
+        js, others, known = jobs(repo, tier, classes)
+        tw = []
+        if towers:
+            tw = parallel_map(_tower_job, [(q, fam) for q in known for fam in ("bool", "arith")
+                                           if not (fam == "arith" and q in ARITH_SKIP)])
+        _CACHE[key] = (parallel_map(_walk_job, js), others, tw)
     return _CACHE[key]
